@@ -355,6 +355,13 @@ class Check:
         self.build_info = None
         os.makedirs(os.path.join(VERIF, "replays"), exist_ok=True)
         os.makedirs(os.path.join(VERIF, "evidence"), exist_ok=True)
+        # replay files of an earlier run of this property would only confuse
+        for fn in os.listdir(os.path.join(VERIF, "replays")):
+            if fn.startswith(prop + "-") and fn.endswith(".json"):
+                try:
+                    os.unlink(os.path.join(VERIF, "replays", fn))
+                except OSError:
+                    pass
 
     # -- counting -----------------------------------------------------------
     def count(self, case_key, nontrivial=True, n=1):
@@ -421,29 +428,27 @@ class Check:
         self.coverage["translator_tie"] = {k: v for k, v in b["gen_status"].items()}
         forb = grep_forbidden()
         self.coverage["forbidden_constructs_found"] = forb
+        # a failure in a file this property does not depend on is not this property's business
+        relevant = [f for f in b.get("failed_files", []) if f in files]
+        if not b["ok"] and not b.get("failed_files"):
+            relevant = ["<build>"]          # make itself failed (translator crash, _CoqProject ...)
         rc, out = (1, "")
-        if b["ok"]:
+        if not relevant:
             rc, out = print_assumptions(self.prop)
+            if rc != 0:
+                relevant = [f"Props/{self.prop}.v"]
         closed, axioms = parse_assumptions(out)
         self.coverage["print_assumptions"] = {"closed_theorems": closed, "axioms": axioms}
-        ok = b["ok"] and rc == 0 and not forb and nob == ndis
+        self.coverage["unrelated_build_failures"] = [f for f in b.get("failed_files", []) if f not in files]
+        ok = not relevant and not forb and nob == ndis
         self.proof_ok = ok
         self.proof_failure = None
         if not ok:
-            relevant = [f for f in b.get("failed_files", []) if f in files]
-            if b["ok"] and rc != 0:
-                relevant = [f"Props/{self.prop}.v"]
             self.proof_failure = {
                 "failed_files": b.get("failed_files", []), "relevant_failed_files": relevant,
-                "forbidden": forb, "log_tail": (b["log"] if not b["ok"] else out)[-4000:],
+                "forbidden": forb, "obligations": nob, "discharged": ndis,
+                "log_tail": (b["log"] if relevant and relevant != [f"Props/{self.prop}.v"] else out)[-4000:],
             }
-            # a failure in an unrelated file of the development does not concern this property
-            if not relevant and not forb and b.get("failed_files"):
-                self.proof_ok = (nob == ndis) or all(
-                    os.path.exists(os.path.join(COQ, f) + "o") for f in files)
-                if self.proof_ok:
-                    rc2, out2 = print_assumptions(self.prop)
-                    self.proof_ok = rc2 == 0
         tb = list(TRUSTED_BASE_COMMON)
         tb.append("Print Assumptions for Props/%s.v: %d theorem(s) 'Closed under the global context'; axioms: %s"
                   % (self.prop, closed, ", ".join(axioms) if axioms else "none"))
